@@ -118,7 +118,10 @@ FuncColour(t) ==
       IF ~al.ok \/ \E i \in 1..3 : ~ch[i].ok THEN ood
       ELSE [st |-> "ok", b |-> <<ch[1].v, ch[2].v, ch[3].v>> \o al.b]
     ELSE
-      IF args[1].k # "num" \/ args[2].k # "pct" \/ args[3].k # "pct" THEN ood
+      \* legacy (comma) syntax: hue number, saturation and lightness percentages (CSS Color 3);
+      \* modern (space) syntax also takes plain numbers for them, 50 = 50% (CSS Color 4 section 7)
+      LET commas == \E i \in 1..Len(t.a) : t.a[i].k = "comma" IN
+      IF args[1].k # "num" \/ (commas /\ (args[2].k # "pct" \/ args[3].k # "pct")) THEN ood
       ELSE LET h == HueInt(ni[1])  s == PctInt(ni[2])  l == PctInt(ni[3]) IN
            IF ~al.ok \/ ~h.ok \/ ~s.ok \/ ~l.ok THEN ood
            ELSE LET c == HslToRgb(h.v, s.v, l.v) IN
